@@ -21,6 +21,11 @@ type Gen struct {
 	objs    []string // variables known to hold objects
 	uniq    int
 	params  []string
+	// rep > 0: the code being generated may run repeatedly (loop body, function body, and eval code
+	// nested in them).  safe > 0: the right-hand side of an assignment in such code is being generated:
+	// no string concatenation of variable contents and no calls there, so that no value can double
+	// per iteration (a program that builds a 2^27-character string "terminates" but cannot be run or judged)
+	rep, safe int
 	// MaxDepth bounds statement nesting (default 3); MaxTop bounds the number of top-level statements (default 5)
 	MaxDepth, MaxTop int
 }
@@ -90,20 +95,34 @@ func (g *Gen) expr(d int) N {
 	case 3, 4:
 		return Id(g.varName())
 	case 5, 6:
-		return Bin(binOps[g.pick(len(binOps))], g.expr(d-1), g.expr(d-1))
+		op := binOps[g.pick(len(binOps))]
+		if op == "+" && g.safe > 0 {
+			op = "-"
+		}
+		return Bin(op, g.expr(d-1), g.expr(d-1))
 	case 7:
 		return Un([]string{"!", "-", "+", "~", "typeof", "void"}[g.pick(6)], g.expr(d-1))
 	case 8:
 		return Cond(g.expr(d-1), g.expr(d-1), g.expr(d-1))
 	case 9:
-		return Asg("=", Id(g.varName()), g.expr(d-1))
+		return Asg("=", Id(g.varName()), g.rhs(d-1))
 	case 10:
-		return Asg([]string{"+", "-", "*", "|", "&"}[g.pick(5)], Id(g.varName()), g.expr(d-1))
+		op := []string{"+", "-", "*", "|", "&"}[g.pick(5)]
+		if op == "+" && (g.rep > 0 || g.safe > 0) {
+			return Asg(op, Id(g.varName()), g.prim()) // linear growth only
+		}
+		return Asg(op, Id(g.varName()), g.rhs(d-1))
 	case 11:
 		return Upd([]string{"++", "--"}[g.pick(2)], g.chance(50), Id(g.varName()))
 	case 12:
+		if g.safe > 0 {
+			return g.prim()
+		}
 		return Call(Id("H"), g.expr(d-1))
 	case 13:
+		if g.safe > 0 {
+			return g.prim()
+		}
 		return g.callExpr(d)
 	case 14:
 		return g.objExpr(d)
@@ -113,7 +132,7 @@ func (g *Gen) expr(d int) N {
 			p := []string{"p", "q", "length", "0", "1"}[g.pick(5)]
 			switch g.pick(4) {
 			case 0:
-				return Asg("=", Dot(Id(o), []string{"p", "q"}[g.pick(2)]), g.expr(d-1))
+				return Asg("=", Dot(Id(o), []string{"p", "q"}[g.pick(2)]), g.rhs(d-1))
 			case 1:
 				return Idx(Id(o), Str(p))
 			case 2:
@@ -135,7 +154,7 @@ func (g *Gen) expr(d int) N {
 				return Idx(Id("arguments"), Num(g.pick(2)))
 			case 2:
 				if len(g.params) > 0 {
-					return Asg("=", Idx(Id("arguments"), Num(0)), g.expr(d-1))
+					return Asg("=", Idx(Id("arguments"), Num(0)), g.rhs(d-1))
 				}
 			}
 			return Un("typeof", This())
@@ -150,6 +169,17 @@ func (g *Gen) expr(d int) N {
 	default:
 		return g.prim()
 	}
+}
+
+// rhs: the right-hand side of an assignment (see Gen.rep / Gen.safe)
+func (g *Gen) rhs(d int) N {
+	if g.rep == 0 && g.safe == 0 {
+		return g.expr(d)
+	}
+	g.safe++
+	e := g.expr(d)
+	g.safe--
+	return e
 }
 
 func (g *Gen) objExpr(d int) N {
@@ -228,9 +258,11 @@ func (g *Gen) block(d, n int) []N {
 
 func (g *Gen) loopBody(d int) N {
 	g.loops++
+	g.rep++
 	g.breakOK++
 	b := Block(g.block(d-1, 1+g.pick(2))...)
 	g.loops--
+	g.rep--
 	g.breakOK--
 	return b
 }
@@ -326,7 +358,7 @@ func (g *Gen) stmt(d int) N {
 		return Expr(Call(Id("H"), g.expr(2)))
 	case 3:
 		n := globalsPool[g.pick(len(globalsPool))]
-		return Var(n, g.expr(2))
+		return Var(n, g.rhs(2))
 	case 4:
 		n := g.fresh("o")
 		s := Var(n, g.objExpr(2))
@@ -452,6 +484,7 @@ func (g *Gen) function(d int, name string, named bool) N {
 		params = []string{"x", "x"}
 	}
 	g.inFunc, g.loops, g.breakOK, g.labels = true, 0, 0, nil
+	g.rep++
 	g.params = params
 	g.vars = append(append([]string{}, saved.vars...), params...)
 	body := g.block(d-1, 1+g.pick(3))
